@@ -34,7 +34,7 @@ import core
 READY = True
 MANIFEST = dict(
     technique='Lean 4 theorems over a transcribed model of match_scope / matches_filter / the message handlers (characterisation of RFC 3986 matching at byte level, induction over message lists for the remote table, the C15 id-window for duplicates); translator for the MatchBy constants; differential correspondence incl. real SOAP datagrams through _run_q_read',
-    text='Theorems (Properties/C14.lean): match_rfc3986_iff (match <=> scheme and authority equal ignoring ASCII case and the percent-decoded segments of the probe scope are a prefix of those of the service scope), match_strcmp_iff, match_unknown_rule, reflexivity/transitivity, probe_answer_exact (answered services = published services offering all types and matching all scopes), resolve_only_published, remote_table_exact (after every Hello/ProbeMatches/ResolveMatches/Bye sequence the entry of an endpoint is absent iff nothing was announced since its last Bye, else carries the maximal metadata version and the merged content of the announcements with that version), duplicate_ignored (a datagram whose id is inside the window changes nothing and is not answered).',
+    text='Theorems (Properties/C14.lean): match_rfc3986_iff (for URIs urlsplit accepts: match <=> scheme and authority equal ignoring ASCII case and the percent-decoded segments of the probe scope are a segment-wise prefix of those of the service scope; query/fragment ignored), match_rfc3986_defined, match_strcmp_iff, match_unknown_rule, generated_rule_kinds / generated_rules_standard (the MatchBy constants of the running code are the WS-Discovery 1.1 URIs), match_refl, match_trans, encoded_slash_is_not_a_separator; probe_answer_exact / probe_answer_mem / probe_answer_defined (answered services = published services offering all types and matching all scopes, in publication order), resolve_only_published with published_get / cleared_get; remote_table_exact, remote_table_max_version, remote_table_present_iff, remote_table_content, empty_epr_never_recorded (for every message sequence the entry of an endpoint is absent iff nothing was announced since its last Bye, else carries the maximal metadata version and the merged content of the announcements with that version); duplicate_ignored and acted_on_once_within_window (the id window of property C15 in front of the dispatcher: a remembered id changes nothing, and an id acted on stays remembered for the next maxlen-1 datagrams).',
     note='Trusted: Lean kernel; harness; urlsplit library checks (ipaddress / NFKC) are a parameter of the model; str.lower() is modelled for ASCII only (non-ASCII cased letters in scheme/authority are excluded from the generator); lxml parsing/validation of the datagrams is outside the model (messages are generated schema-valid).',
     ref='5 C14')
 DRIVERS = ['drv_c14']
